@@ -2,6 +2,7 @@
    (engine "strings").  Codes: 0 agree, 1 model <> implementation, 2 the property oracle rejects what
    the implementation returned, 3 the model faulted where the implementation did not. *)
 From QF Require Import Base.Prelude Base.CaseLib Model.Utf8 Model.Json Model.Match Model.Bits.
+From QF Require Import Model.Ryu Model.Frame Model.Filter Model.Ops Model.JsonRead.
 Local Open Scope N_scope.
 
 (* ------------------------------------------------------------------ oracle tables shipped per case *)
@@ -43,7 +44,14 @@ Inductive strings_case :=
 | SMatch (tbl : list (N * Z)) (pu : bytes) (retbl : list (bytes * bytes * option bool))
          (p : bytes) (cs : bool) (cells : list bytes) (obs : match_obs)
 (* ToJSON of a frame: names, per-row cell renderings, observed output; None = panic/error *)
-| SDoc (names : list bytes) (rows : list (list bytes)) (out : option bytes).
+| SDoc (names : list bytes) (rows : list (list bytes)) (out : option bytes)
+(* json-frame: the physical dump of a frame and the bytes qf.ToJSON wrote; None = error / panic *)
+| SJFrame (f : frame) (out : option bytes)
+(* json-read: qframe.ReadJSON(doc, ColumnOrder(order...), Enums(enums)).  src = the frame the document was
+   written from (None for hand-made / damaged documents), pf = strconv.ParseFloat on every number token of
+   the document (None = range error), res = the dump of the frame that came back *)
+| SJRead (src : option frame) (doc : bytes) (order : list bytes) (enums : list (bytes * list bytes))
+         (pf : list (bytes * option N)) (res : frame).
 
 Definition kind_code (k : mkind) : N :=
   match k with
@@ -211,6 +219,256 @@ Definition check_doc (names : list bytes) (rows : list (list bytes)) (out : opti
            end
   end.
 
+(* ================================================================== json-frame / json-read (C14 at frame level)
+
+   Specification side of the oracles.  Nothing below calls the model of the code under test (frame_to_json,
+   cell_json, read_json): the frame is read through abs, the document through the Coq RFC 8259 reader
+   (decode_doc = parse_doc + the value of every token), floats through the rounding interval test. *)
+
+(* y * 10^k lies in the rounding interval of the decoded float fd (the interval test of the C16
+   certificate checker, Proofs/RyuShortest.v sc_in, written out) *)
+Definition in_round_interval (fd : fdec) (k : Z) (y : N) : bool :=
+  let v := scale_flt k (f_e2 fd) (4 * f_m2 fd) in
+  let u := scale_flt k (f_e2 fd) 1 in
+  in_interval (N.even (f_m2 fd)) (v - f_lowgap fd * u) (v + 2 * u) (scale_dec k (f_e2 fd) y).
+
+(* the same number written with fewer trailing zeros: m * 10^e = (m / 10) * 10^(e + 1) when 10 divides m.
+   Every representation is tried (they denote the same number). *)
+Fixpoint interval_any (fuel : nat) (fd : fdec) (m : N) (e : Z) : bool :=
+  if in_round_interval fd e m then true
+  else match fuel with
+       | O => false
+       | S g => if (0 <? m) && (m mod 10 =? 0) then interval_any g fd (m / 10) (e + 1) else false
+       end.
+
+(* a number token (-1)^neg * m * 10^e parses back to the float with this bit pattern (finite, not NaN):
+   the sign is the sign bit (zeros included: -0 is written with its sign), a zero is written as a zero,
+   any other float as a decimal inside its rounding interval *)
+Definition float_denoted (bits : N) (neg : bool) (m : N) (e : Z) : bool :=
+  Bool.eqb neg (negb (bits / 2 ^ 63 =? 0)) &&
+  match decode_float bits with
+  | Some fd => interval_any (N.to_nat (N.size m)) fd m e       (* m has fewer trailing zeros than bits *)
+  | None => (N.land bits f_abs_mask =? 0) && (m =? 0)
+  end.
+
+(* (-1)^neg * m * 10^e = z *)
+Definition int_denoted (z : Z) (neg : bool) (m : N) (e : Z) : bool :=
+  let a := Z.abs_N z in
+  ((0 <=? e)%Z && (m * 10 ^ Z.to_N e =? a) || (e <? 0)%Z && (m =? a * 10 ^ Z.to_N (- e)))
+  && ((a =? 0) || Bool.eqb neg (z <? 0)%Z).
+
+Definition cell_denoted (c : cell) (v : jval) : bool :=
+  match c, v with
+  | CInt z, VNum neg m e => int_denoted z neg m e
+  | CFloat b, VNull => f_isnan b
+  | CFloat b, VNum neg m e => negb (f_isnan b) && negb (f_isinf b) && float_denoted b neg m e
+  | CBool b, VBool b' => Bool.eqb b b'
+  | CStr None, VNull | CEnum None, VNull => true
+  | CStr (Some s), VStr cps | CEnum (Some s), VStr cps => list_eqb N.eqb cps (utf8_sanitize s)
+  | _, _ => false
+  end.
+
+Fixpoint object_denotes (names : list bytes) (row : list cell) (obj : list (list N * jval)) : bool :=
+  match names, row, obj with
+  | [], [], [] => true
+  | n :: ns, c :: cs, (k, v) :: ms =>
+      list_eqb N.eqb k (utf8_sanitize n) && cell_denoted c v && object_denotes ns cs ms
+  | _, _, _ => false
+  end.
+
+Fixpoint objects_denote (names : list bytes) (rows : list (list cell)) (objs : list (list (list N * jval))) : bool :=
+  match rows, objs with
+  | [], [] => true
+  | r :: rs, o :: os => object_denotes names r o && objects_denote names rs os
+  | _, _ => false
+  end.
+
+(* C14, first sentence: the output is a JSON array with one object per row, in row order, keys in column
+   order, whose decoded values equal the cells *)
+Definition json_table_oracle (t : table) (out : bytes) : bool :=
+  match decode_doc out with
+  | Some objs => objects_denote (tnames t) (trows t) objs
+  | None => false
+  end.
+
+Definition cell_has_inf (c : cell) : bool := match c with CFloat b => f_isinf b | _ => false end.
+
+Definition check_jframe (f : frame) (out : option bytes) : N :=
+  if ferr f then
+    match out, frame_to_json f with
+    | None, Fail => 0
+    | _, Panic => 3
+    | _, _ => 1
+    end
+  else
+    match abs f with
+    | Ok t =>
+        if existsb (existsb cell_has_inf) (trows t) then 0           (* outside the property's domain *)
+        else
+          match out with
+          | None => 2
+          | Some o =>
+              if negb (json_table_oracle t o) then 2
+              else match frame_to_json f with
+                   | Ok o' => if bytes_eqb o o' then 0 else 1
+                   | _ => 3
+                   end
+          end
+    | _ => 3                                                         (* the dump is not a well formed frame *)
+    end.
+
+(* ------------------------------------------------------------------ json-read *)
+
+Definition pf_of (tbl : list (bytes * option N)) (text : bytes) : option N :=
+  match assocb text tbl with Some r => r | None => None end.
+
+Definition col_phys_eqb (a b : coldata) : bool :=
+  match a, b with
+  | ICol x, ICol y => list_eqb Z.eqb x y
+  | FCol x, FCol y => list_eqb N.eqb x y
+  | BCol x, BCol y => list_eqb Bool.eqb x y
+  | SCol x, SCol y => list_eqb opt_bytes_eqb x y
+  | ECol x vx sx, ECol y vy sy => list_eqb N.eqb x y && list_eqb bytes_eqb vx vy && Bool.eqb sx sy
+  | _, _ => false
+  end.
+
+Definition frame_phys_eqb (m o : frame) : bool :=
+  Bool.eqb (ferr m) (ferr o) &&
+  list_eqb (fun x y => bytes_eqb (fst x) (fst y) && col_phys_eqb (snd x) (snd y)) (cols m) (cols o) &&
+  list_eqb Nat.eqb (ix m) (ix o).
+
+(* the float64 nearest to the integer z, ties to even (what a correctly rounding reader returns for the
+   decimal text of z; for |z| <= 2^53 the float equal to z) *)
+Definition int_to_float_spec (z : Z) : N :=
+  let a := Z.abs_N z in
+  if a =? 0 then 0
+  else
+    let k := N.size a in                                   (* 2^(k-1) <= a < 2^k *)
+    let sgn := if (z <? 0)%Z then 2 ^ 63 else 0 in
+    if k <=? 53 then sgn + (k - 1 + 1023) * 2 ^ 52 + (a * 2 ^ (53 - k) - 2 ^ 52)
+    else
+      let sh := k - 53 in
+      let q := a / 2 ^ sh in
+      let r := a mod 2 ^ sh in
+      let half := 2 ^ (sh - 1) in
+      let q' := if (half <? r) || ((half =? r) && N.odd q) then q + 1 else q in
+      (* q' = 2^53 carries into the exponent: mantissa field 0, exponent + 1 — the sum below does that *)
+      sgn + (k - 1 + 1023) * 2 ^ 52 + (q' - 2 ^ 52).
+
+Definition enum_conf_of (cs : list (bytes * coldata)) : list (bytes * list bytes) :=
+  flat_map (fun nc => match snd nc with ECol _ vs _ => [(fst nc, vs)] | _ => [] end) cs.
+
+Definition enums_eqb (a b : list (bytes * list bytes)) : bool :=
+  list_eqb (fun x y => bytes_eqb (fst x) (fst y) && list_eqb bytes_eqb (snd x) (snd y)) a b.
+
+(* the premises of C14_readback, decided *)
+Definition rb_cell_okb (c : cell) : bool :=
+  match c with
+  | CFloat b => (b <? 2 ^ 64) && negb (f_isnan b) && negb (f_isinf b)
+  | CStr (Some s) | CEnum (Some s) => utf8_valid s
+  | _ => true
+  end.
+
+Definition rb_premises (f : frame) (t : table) : bool :=
+  negb (ferr f) && wf_frame f &&
+  negb (Nat.eqb (length (cols f)) 0) && negb (Nat.eqb (length (ix f)) 0) &&
+  nodup_bytes (col_names f) &&
+  forallb (fun n => utf8_valid n && check_name n) (col_names f) &&
+  forallb (fun nc => match snd nc with ECol _ vs _ => nodup_bytes vs | _ => true end) (cols f) &&
+  forallb (forallb rb_cell_okb) (trows t).
+
+(* what must come back: ints as the equal-valued (nearest) float, everything else identical; without an
+   Enums declaration an enum column can only come back as a string column with the same cells *)
+Definition rb_cell_spec (with_enums : bool) (c : cell) : cell :=
+  match c with
+  | CInt z => CFloat (int_to_float_spec z)
+  | CEnum s => if with_enums then CEnum s else CStr s
+  | c => c
+  end.
+Definition rb_type_spec (with_enums : bool) (ty : ctype) : ctype :=
+  match ty with TInt => TFloat | TEnum => if with_enums then TEnum else TString | ty => ty end.
+
+Definition cell_exact_eqb (a b : cell) : bool :=
+  match a, b with
+  | CFloat x, CFloat y => x =? y
+  | CInt x, CInt y => Z.eqb x y
+  | CBool x, CBool y => Bool.eqb x y
+  | CStr x, CStr y => opt_bytes_eqb x y
+  | CEnum x, CEnum y => opt_bytes_eqb x y
+  | _, _ => false
+  end.
+
+Definition table_col (t : table) (k : nat) : ctype * list cell :=
+  (nth k (ttypes t) TInt, map (fun row => nth k row (CInt 0)) (trows t)).
+
+Fixpoint index_of (n : bytes) (l : list bytes) (k : nat) : option nat :=
+  match l with
+  | [] => None
+  | x :: r => if bytes_eqb x n then Some k else index_of n r (S k)
+  end.
+
+Definition table_exact_eqb (a b : table) : bool :=
+  list_eqb bytes_eqb (tnames a) (tnames b) && list_eqb ctype_eqb (ttypes a) (ttypes b)
+  && list_eqb (list_eqb cell_exact_eqb) (trows a) (trows b).
+
+(* the table C14 asks for *)
+Definition readback_expected (with_enums : bool) (t : table) : table :=
+  mkTable (tnames t) (map (rb_type_spec with_enums) (ttypes t)) (map (map (rb_cell_spec with_enums)) (trows t)).
+
+(* with ColumnOrder the table that came back is the expected one; without, it has under every name of the
+   source the expected column (the columns come back in another order) *)
+Definition readback_table_ok (with_order with_enums : bool) (t t' : table) : bool :=
+  if with_order then table_exact_eqb t' (readback_expected with_enums t)
+  else
+    Nat.eqb (length (tnames t')) (length (tnames t)) &&
+    Nat.eqb (length (trows t')) (length (trows t)) &&
+    forallb (fun r => Nat.eqb (length r) (length (tnames t'))) (trows t') &&
+    forallb (fun k =>
+               match index_of (nth k (tnames t) []) (tnames t') 0 with
+               | None => false
+               | Some k' =>
+                   let '(ty, cells) := table_col t k in
+                   let '(ty', cells') := table_col t' k' in
+                   ctype_eqb ty' (rb_type_spec with_enums ty) &&
+                   list_eqb cell_exact_eqb cells' (map (rb_cell_spec with_enums) cells)
+               end) (seq 0 (length (tnames t))).
+
+(* C14, second sentence.  It speaks when the source frame satisfies the premises of C14_readback and the
+   configuration is ColumnOrder(all names) or none, Enums(every enum column with its value table) or none. *)
+Definition readback_oracle (src : option frame) (order : list bytes) (enums : list (bytes * list bytes))
+           (res : frame) : bool :=
+  match src with
+  | None => true
+  | Some f =>
+      match abs f with
+      | Ok t =>
+          let with_order := list_eqb bytes_eqb order (col_names f) in
+          let with_enums := enums_eqb enums (enum_conf_of (cols f)) in
+          let has_enum := negb (Nat.eqb (length (enum_conf_of (cols f))) 0) in
+          if rb_premises f t
+             && (with_order || Nat.eqb (length order) 0)
+             && (with_enums || Nat.eqb (length enums) 0)
+          then
+            negb (ferr res) &&
+            match abs res with
+            | Ok t' => readback_table_ok with_order (with_enums || negb has_enum) t t'
+            | _ => false
+            end
+          else true
+      | _ => true
+      end
+  end.
+
+Definition check_jread (src : option frame) (doc : bytes) (order : list bytes) (enums : list (bytes * list bytes))
+           (pf : list (bytes * option N)) (res : frame) : N :=
+  if negb (readback_oracle src order enums res) then 2
+  else
+    match read_json (pf_of pf) doc order enums with
+    | Ok g => if frame_phys_eqb g res then 0 else 1
+    | Fail => if ferr res then 0 else 1      (* outside the Coq reader's documents: ReadJSON must fail too *)
+    | Panic => 3
+    end.
+
 Definition check_strings (c : strings_case) : N :=
   match c with
   | SDecRow prefix codes => check_decrow prefix codes
@@ -220,4 +478,6 @@ Definition check_strings (c : strings_case) : N :=
   | SUp tbl buf calls => check_up tbl buf calls
   | SMatch tbl pu retbl p cs cells obs => check_match tbl pu retbl p cs cells obs
   | SDoc names rows out => check_doc names rows out
+  | SJFrame f out => check_jframe f out
+  | SJRead src doc order enums pf res => check_jread src doc order enums pf res
   end.
